@@ -93,11 +93,18 @@ Section Codecs.
   Definition envelope_dummy : Envelope :=
     {| env_internal := false; env_nonce := zeros Nne; env_hmac := zeros Nh |}.
 
+  (* ---------------- messages.rs: deserialize_blinded_element / deserialize_evaluation_element:
+     voprf's decoder (takes Noe bytes from the front, accepts what the group
+     decoder accepts), then "re-encodes to the input" *)
+  Definition deserialize_element (b : bytes) : result E :=
+    let* e := voprf_deser_elem OP b in
+    if bytes_eqb (o_ser_e OP e) b then Ok e else Err ESerialization.
+
   (* ---------------- RegistrationRequest *)
   Definition registration_request_serialize (m : RegistrationRequest E) : bytes :=
     o_ser_e OP (rq_blinded m).
   Definition registration_request_deserialize (b : bytes) : result (RegistrationRequest E) :=
-    let* e := voprf_deser_elem OP b in
+    let* e := deserialize_element b in
     Ok {| rq_blinded := e |}.
 
   (* ---------------- RegistrationResponse *)
@@ -106,7 +113,7 @@ Section Codecs.
   Definition registration_response_deserialize (b : bytes) : result (RegistrationResponse E Pk) :=
     let* checked := check_slice_size b (Noe + Npk) in
     let* pk := pk_deserialize (skipn Noe checked) in
-    let* e := voprf_deser_elem OP (firstn Noe checked) in
+    let* e := deserialize_element (firstn Noe checked) in
     Ok {| rr_eval := e; rr_server_s_pk := pk |}.
 
   (* ---------------- RegistrationUpload = ServerRegistration (the password file) *)
@@ -133,7 +140,7 @@ Section Codecs.
     o_ser_e OP (cq_blinded m) ++ ke1_message_serialize (cq_ke1 m).
   Definition credential_request_deserialize (b : bytes) : result (CredentialRequest E Pk) :=
     let* checked := check_slice_size_atleast b Noe in
-    let* e := voprf_deser_elem OP (firstn Noe checked) in
+    let* e := deserialize_element (firstn Noe checked) in
     if o_eqb OP (o_identity OP) e then Err EIdentityGroupElement
     else
       let* ke1 := ke1_message_deserialize (skipn Noe checked) in
@@ -171,7 +178,7 @@ Section Codecs.
   Definition credential_response_deserialize (b : bytes) : result (CredentialResponse E Pk) :=
     let mrl := Npk + envelope_len in
     let* checked := check_slice_size_atleast b (Noe + Nn + mrl + ke2_message_len) in
-    let* e := voprf_deser_elem OP (firstn Noe checked) in
+    let* e := deserialize_element (firstn Noe checked) in
     if o_eqb OP (o_identity OP) e then Err EIdentityGroupElement
     else
       let masking_nonce := slice checked Noe Nn in
@@ -208,7 +215,7 @@ Section Codecs.
   Definition client_registration_deserialize (b : bytes) : result (ClientRegistration E Sc) :=
     let* checked := check_slice_size b (Nok + Noe) in
     let* r := voprf_deser_scalar OP (firstn Nok checked) in
-    let* e := voprf_deser_elem OP (skipn Nok checked) in
+    let* e := deserialize_element (skipn Nok checked) in
     Ok {| crs_blind := r; crs_blinded := e |}.
 
   (* ---------------- Ke1State *)
